@@ -189,8 +189,23 @@ func (m *c09Mon) Observe(pre, post *cdpSnap, e *cdpEvent) {
 			}
 			bound := 2*((m.maxLen[id]+m.batch-1)/m.batch) + 2
 			if m.survived[id] > bound {
+				// witness only: what the chain's own per-vault step answers when it is run for this vault right now
+				why := ""
+				func() {
+					defer func() {
+						if x := recover(); x != nil {
+							why = fmt.Sprintf("panic: %v", x)
+						}
+					}()
+					cctx, _ := m.u.c.Ctx().CacheContext()
+					if err := m.u.c.App.NewliqKeeper.LiquidateIndividualVault(cctx, id, "", false); err != nil {
+						why = "error: " + err.Error()
+					} else {
+						why = "no error"
+					}
+				}()
 				m.rec.Violate("C09/liveness/vault-gen2/unsafe-not-seized-within-two-sweeps", fmt.Sprintf("vault unsafe and eligible for %d consecutive blocks (bound %d, list length <= %d, batch %d)", m.survived[id], bound, m.maxLen[id], m.batch),
-					map[string]interface{}{"event": e.String(), "vault": id, "product": p.ID, "in": v.AmountIn.String(), "out": v.AmountOut.String(), "interest": v.InterestAccumulated.String(), "price_in": pre.Price[p.In.ID]})
+					map[string]interface{}{"event": e.String(), "vault": id, "product": p.ID, "in": v.AmountIn.String(), "out": v.AmountOut.String(), "interest": v.InterestAccumulated.String(), "price_in": pre.Price[p.In.ID], "per_vault_step_run_directly": trunc(why)})
 				delete(m.survived, id) // report once per episode
 			}
 		}
